@@ -48,8 +48,14 @@ def run(ctx):
     real_results = []
     real_error = []
 
+    shapes = {}
+
     def real_leg():
         try:
+            if not ctx.quick():
+                # the assumption behind the synthesised events, re-measured with the real debouncer
+                n, bad = wc.recheck_event_shapes(tool, os.path.join(work, "shapes"))
+                shapes.update(checked=n, mismatching=bad)
             cli = runner.build_cli()
             jobs = list(range(n_real))
 
@@ -82,6 +88,10 @@ def run(ctx):
         th.join()
     if real_error:
         raise real_error[0]
+
+    if shapes.get("mismatching"):
+        raise Inconclusive("the debouncer no longer delivers the recorded event shapes for "
+                           f"{shapes['mismatching']}: re-record data/event_shapes.json and adapt the synthesiser")
 
     counters = {}
     violations = []
@@ -161,6 +171,7 @@ def run(ctx):
         "sim": counters,
         "real": real,
         "crashed_children": len(crashed),
+        "event_shapes_recheck": shapes or "thorough tier only",
     }
     return runner.finish(ctx, "exploration", coverage, violations, assumptions=ASSUMPTIONS)
 
